@@ -18,8 +18,10 @@ import (
 	"sync/atomic"
 	"time"
 
+	"github.com/yandex/pandora/core"
 	"github.com/yandex/pandora/core/config"
 	"github.com/yandex/pandora/core/plugin"
+	"github.com/yandex/pandora/core/register"
 
 	"verif/harness/vkit"
 )
@@ -897,6 +899,87 @@ func typeOnlySections(res *vkit.Result) {
 	}
 }
 
+// ---- pass 6: components registered through core/register, as all built-in ones are ----
+
+type RConf struct {
+	Target  string   `config:"target"`
+	Retries int      `config:"retries"`
+	Hosts   []string `config:"hosts"`
+}
+type rgun struct{ c *RConf }
+
+func (g *rgun) Bind(core.Aggregator, core.GunDeps) error { return nil }
+func (g *rgun) Shoot(core.Ammo)                          {}
+
+type rholder struct {
+	G core.Gun                 `config:"g"`
+	F func() (core.Gun, error) `config:"f"`
+}
+
+// registerHelpers: a gun registered with register.Gun whose default-config function returns a
+// pointer (and a list inside it). Two sections in a row, and several products of one factory:
+// what the first one set, or did to its config, must not be the second one's default.
+func registerHelpers(res *vkit.Result) {
+	register.Gun("verif-rgun", func(c *RConf) core.Gun { return &rgun{c} }, func() *RConf {
+		return &RConf{Target: "default-target", Retries: 3, Hosts: []string{"a", "b"}}
+	})
+	defer func() {
+		if p := recover(); p != nil {
+			res.Violate("C18/register-helper/panic", fmt.Sprintf("panic while creating guns registered through register.Gun: %v", p), nil)
+		}
+	}()
+	conf := func(g core.Gun) *RConf { return g.(*rgun).c }
+	show := func(c *RConf) string { return fmt.Sprintf("%+v", *c) }
+	fail := func(check, f string, a ...any) {
+		res.Violate("C18/register-helper/"+check, fmt.Sprintf(f, a...), map[string]any{"registration": "register.Gun with func() *Conf default"})
+	}
+	var h1, h2 rholder
+	if err := config.Decode(map[string]any{"g": map[string]any{"type": "verif-rgun", "target": "first:80", "retries": 9, "hosts": []any{"x"}}}, &h1); err != nil {
+		fail("decode", "first section rejected: %v", err)
+		return
+	}
+	conf(h1.G).Hosts[0] = "mutated-by-first"
+	if err := config.Decode(map[string]any{"g": map[string]any{"type": "verif-rgun"}}, &h2); err != nil {
+		fail("decode", "second section rejected: %v", err)
+		return
+	}
+	if got, want := show(conf(h2.G)), show(&RConf{Target: "default-target", Retries: 3, Hosts: []string{"a", "b"}}); got != want {
+		fail("config", "a section holding only the type, decoded after another gun of the same type, is configured with %s, want the registered defaults %s", got, want)
+	}
+	if got, want := show(conf(h1.G)), show(&RConf{Target: "first:80", Retries: 9, Hosts: []string{"mutated-by-first"}}); got != want {
+		fail("config", "the first gun's configuration changed when the second was created: %s, want %s", got, want)
+	}
+	var hf rholder
+	if err := config.Decode(map[string]any{"f": map[string]any{"type": "verif-rgun", "retries": 5}}, &hf); err != nil {
+		fail("decode", "factory section rejected: %v", err)
+		return
+	}
+	var prods []*RConf
+	for i := 0; i < 3; i++ {
+		g, err := hf.F()
+		if err != nil {
+			fail("factory", "product %d: %v", i, err)
+			return
+		}
+		c := conf(g)
+		if got, want := show(c), show(&RConf{Target: "default-target", Retries: 5, Hosts: []string{"a", "b"}}); got != want {
+			fail("config", "factory product %d configured with %s, want %s", i, got, want)
+		}
+		for _, p := range prods {
+			if p == c {
+				fail("shared", "factory products %d and an earlier one hold the same configuration object", i)
+			}
+		}
+		prods = append(prods, c)
+		c.Retries = -1
+		if len(c.Hosts) > 1 {
+			c.Hosts[1] = "mutated"
+		}
+	}
+	res.Eval("register-helpers", true)
+	res.Count("form_register-helper", 1)
+}
+
 func main() {
 	vkit.Fs() // registers the config hooks (pluginconfig.AddHooks via core import)
 	res := vkit.NewResult("exhaustive cross product of constructor shapes (component|factory × no config|struct|*struct × error result × inner error result / impl-typed result × default-config func) × requested form (New, factory with error, factory without error) × outcome (ok, constructor error, inner factory error, config error) × 1–5 factory calls with mutation of each product's config; plus every config-taking shape through the `type:` config hooks; plus plugins nested three deep in plugins of the same registered name and two overlapping creations (one held in the middle of decoding by a blocking field) for value/pointer/factory shapes; plus one decoded factory called from 16 goroutines at once (every product must come from its own freshly created default); distinct = distinct (shape, form, outcome, calls); all are non-trivial")
@@ -925,6 +1008,7 @@ func main() {
 	nestedAndOverlap(res)
 	sameFactoryConcurrently(res, vkit.N(60, 1500))
 	typeOnlySections(res)
+	registerHelpers(res)
 	res.Set("exhaustive", true)
 	res.Set("shapes", len(shapes()))
 	res.Sample(Case{Shape: shapes()[5], Form: "factory-noerr", Outcome: "config-error", Calls: 2})
